@@ -67,6 +67,8 @@ def main():
             from props import c17
 
             return c17.fidelity(seed)
+        if args.what == "selftest-reach":
+            return selftest.reach(seed, args.runs or 1500)
         if args.what == "selftest-sensitivity":
             return selftest.sensitivity(seed, only=[args.path] if args.path else None)
         if args.what not in runner.PROPS:
